@@ -39,6 +39,11 @@ pub fn rule_table(g: &G, p: &proj::Projection) -> Vec<Value> {
     .collect()
 }
 
+/// the secondary labels of a match: the nodes its relational rules recorded, in the order they were recorded
+fn labels_json(nm: &NodeMatch<StrDoc<SupportLang>>, p: &proj::Projection) -> Vec<usize> {
+  nm.get_env().get_labels("secondary").map(|ns| ns.iter().map(|n| p.id_of(n)).collect()).unwrap_or_default()
+}
+
 fn env_json(nm: &NodeMatch<StrDoc<SupportLang>>, p: &proj::Projection) -> (Map<String, Value>, Map<String, Value>) {
   let env = nm.get_env();
   let mut single = Map::new();
@@ -83,7 +88,7 @@ fn per_node<M: Matcher<SupportLang>>(m: &M, nodes: &[N], p: &proj::Projection) -
       Ok(Some(nm)) => {
         let (s, mu) = env_json(&nm, p);
         verdicts.push(true);
-        envs.push(json!({"single": s, "multi": mu}));
+        envs.push(json!({"single": s, "multi": mu, "labels": labels_json(&nm, p)}));
       }
     }
   }
@@ -536,7 +541,7 @@ fn hits_of(v: &[bool]) -> Vec<usize> {
   v.iter().enumerate().filter(|(_, b)| **b).map(|(i, _)| i + 1).collect()
 }
 fn hit_envs(v: &[bool], envs: &[Value]) -> Vec<Value> {
-  v.iter().enumerate().filter(|(_, b)| **b).map(|(i, _)| json!({"n": i + 1, "single": envs[i]["single"], "multi": envs[i]["multi"]})).collect()
+  v.iter().enumerate().filter(|(_, b)| **b).map(|(i, _)| json!({"n": i + 1, "single": envs[i]["single"], "multi": envs[i]["multi"], "labels": envs[i].get("labels").cloned().unwrap_or(json!([]))})).collect()
 }
 fn pk_json(k: Option<bit_set::BitSet>) -> Value {
   match k {
